@@ -5,7 +5,7 @@ cd "$(dirname "$0")/.."
 export GOFLAGS=-mod=mod GOPROXY=off GOSUMDB=off GOTOOLCHAIN=local
 mkdir -p .work/bin evidence replays
 bin/genmod.sh
-(cd harness && go build -tags verif -o ../.work/bin/vh ./cmd/vh)
+(cd harness && go build -buildvcs=false -tags verif -o ../.work/bin/vh ./cmd/vh)
 T=.work/sany.$$; rm -rf $T; mkdir -p $T
 for d in spec/*/; do cp $d*.tla $T/ 2>/dev/null || true; done
 rc=0
